@@ -62,6 +62,9 @@ structure Sender where
   err : Bool := false
   /-- an `unreachable!()` of `Outgoing::{on_data_acked, may_loss_data}` (`Ready` state) was hit -/
   panicked : Bool := false
+  /-- the endpoint's output table was replaced by `Err(conn_error)` (`DataStreams::on_conn_error`): transport
+  notifications no longer reach the stream (only `on_reset_acked` can tell: all other ones are no-ops then anyway) -/
+  closed : Bool := false
 
 structure Recver where
   st : RSt := .recv
@@ -260,6 +263,7 @@ def Sender.beStopped (s : Sender) : Sender × Option Nat :=
 
 /-- `Outgoing::on_reset_acked`. -/
 def Sender.resetAcked (s : Sender) : Sender :=
+  if s.closed then s else
   if s.err then s else
   match s.st with
   | .resetSent => { s with st := .resetRcvd }
@@ -267,10 +271,10 @@ def Sender.resetAcked (s : Sender) : Sender :=
 
 /-- `Outgoing::on_conn_error`. -/
 def Sender.connError (s : Sender) : Sender :=
-  if s.err then s else
+  if s.err then { s with closed := true } else
   match s.st with
-  | .ready | .sending | .dataSent => { s with err := true }
-  | _ => s
+  | .ready | .sending | .dataSent => { s with err := true, closed := true }
+  | _ => { s with closed := true }
 
 /-! ## receiving half -/
 
